@@ -11,6 +11,7 @@ R3 table output          : BaseSolver's table renderer is an accessor in the sen
 import ast
 
 from .. import cfg as cfgmod
+from ..cfg import atomic_facts
 from ..loader import AnalysisError, unparse, call_name, attr_chain
 from ..dataflow import target_names, linform, lin_eq, lin_str
 from ..solver_model import solver_function
@@ -163,6 +164,14 @@ def run(prog, check):
         inits = [n for n in ast.walk(gu.node) if isinstance(n, ast.Assign) and isinstance(n.targets[0], ast.Name)
                  and incs and n.targets[0].id == target_names(incs[0].target)[0] and lin_eq(linform(n.value), {'': 0})]
         cnt_ok = len(incs) == 1 and len(inits) == 1
+    elif len(lp) == 1 and isinstance(lp[0].iter, ast.Call) and call_name(lp[0].iter) == 'enumerate' and lp[0].iter.args and \
+            unparse(lp[0].iter.args[0]) == 'self.Endogenous' and (len(lp[0].iter.args) == 1 or lin_eq(linform(lp[0].iter.args[1]), {'': 0})) \
+            and not any(k.arg == 'start' and not lin_eq(linform(k.value), {'': 0}) for k in lp[0].iter.keywords):
+        # for cnt, (name, eqn) in enumerate(self.Endogenous): the index is the position in the prefix
+        idx = target_names(lp[0].target)[0]
+        uses = any(isinstance(x, ast.Name) and x.id == idx and isinstance(x.ctx, ast.Load) for x in ast.walk(lp[0]))
+        rebinds = any(isinstance(x, ast.Name) and x.id == idx and isinstance(x.ctx, ast.Store) for st in lp[0].body for x in ast.walk(st))
+        ok, cnt_ok = True, uses and not rebinds
     check.ob('C20.R2', '%s::unpack-prefix' % gu.key, ok and cnt_ok, gu.where,
              'results are read from orig_vector[0..n_endogenous) in Endogenous order' if (ok and cnt_ok) else
              'result unpacking does not index the Endogenous prefix 0,1,2,...', 'a block with lagged and exogenous variables')
@@ -305,21 +314,77 @@ def run(prog, check):
     b = base[0]
     summ = Summaries(prog)
     check_accessor(prog, check, b, 'renderer', summ, pid_rules=('C20.R3', 'C20.R3'))
-    # time axis first, each variable once: `if 't' in L: L.remove('t'); L = ['t'] + L`
+    # time axis first, each variable once: on every path to the header, the column sequence is evaluated symbolically
+    #   L = copy of VariableList;  L.remove('t') -> L-t;  ['t'] + X / X.insert(0, 't') -> t+X
+    # required:  t+(L-t) on paths where `'t' in L` held,  L on paths where it did not
+    gb = cfgmod.build(b)
+    header = None
+    for nd in gb.stmt_nodes():
+        if nd.kind == 'stmt' and header is None:
+            for c in ast.walk(nd.ast):
+                if isinstance(c, ast.Call) and call_name(c) == 'join' and isinstance(c.func, ast.Attribute) and \
+                        isinstance(c.func.value, ast.Constant) and c.func.value.value == '\t' and c.args and isinstance(c.args[0], ast.Name):
+                    header = (nd, c.args[0].id)
+                    break
     ok = False
-    for n in ast.walk(b.node):
-        if isinstance(n, ast.If) and isinstance(n.test, ast.Compare) and isinstance(n.test.ops[0], ast.In) and \
-                isinstance(n.test.left, ast.Constant) and n.test.left.value == 't':
-            L = unparse(n.test.comparators[0])
-            rem = any(isinstance(c, ast.Call) and call_name(c) == 'remove' and unparse(c.func.value) == L and
-                      isinstance(c.args[0], ast.Constant) and c.args[0].value == 't' for st in n.body for c in ast.walk(st))
-            pre = any(isinstance(a, ast.Assign) and unparse(a.targets[0]) == L and isinstance(a.value, ast.BinOp) and
-                      isinstance(a.value.left, ast.List) and len(a.value.left.elts) == 1 and
-                      getattr(a.value.left.elts[0], 'value', None) == 't' and unparse(a.value.right) == L
-                      for st in n.body for a in ast.walk(st))
-            ok = rem and pre
+    why_t = 'the header row is not the tab-join of a column sequence'
+    if header is not None:
+        hnode, seqname = header
+
+        def symv(e, env):
+            if isinstance(e, ast.Name):
+                return env.get(e.id, ('?', e.id))
+            if isinstance(e, ast.Call) and call_name(e) in ('list', 'copy') and len(e.args) == 1:
+                inner = symv(e.args[0], env)
+                return inner
+            if isinstance(e, ast.Attribute) and e.attr == 'VariableList':
+                return ('L',)
+            if isinstance(e, ast.Subscript) and isinstance(e.slice, ast.Slice) and e.slice.lower is None and e.slice.upper is None:
+                return symv(e.value, env)
+            if isinstance(e, ast.BinOp) and isinstance(e.op, ast.Add) and isinstance(e.left, ast.List) and len(e.left.elts) == 1 \
+                    and getattr(e.left.elts[0], 'value', None) == 't':
+                return ('t+', symv(e.right, env))
+            return ('?', unparse(e))
+        ok = True
+        npaths = 0
+        for path in gb.paths(gb.entry, hnode, cap=2000):
+            env, conds = {}, []
+            for i_, nid in enumerate(path[:-1]):
+                nd = gb.nodes[nid]
+                if nd.kind == 'stmt' and isinstance(nd.ast, ast.Assign) and len(nd.ast.targets) == 1 and isinstance(nd.ast.targets[0], ast.Name):
+                    env[nd.ast.targets[0].id] = symv(nd.ast.value, env)
+                elif nd.kind == 'stmt' and isinstance(nd.ast, ast.Expr) and isinstance(nd.ast.value, ast.Call) and \
+                        isinstance(nd.ast.value.func, ast.Attribute) and isinstance(nd.ast.value.func.value, ast.Name):
+                    c = nd.ast.value
+                    nm = c.func.value.id
+                    cur = env.get(nm, ('?', nm))
+                    if c.func.attr == 'remove' and len(c.args) == 1 and getattr(c.args[0], 'value', None) == 't':
+                        env[nm] = ('L-t',) if cur == ('L',) else ('?', 'remove on %s' % (cur,))
+                    elif c.func.attr == 'insert' and len(c.args) == 2 and getattr(c.args[0], 'value', None) == 0 and \
+                            getattr(c.args[1], 'value', None) == 't':
+                        env[nm] = ('t+', cur)
+                    elif c.func.attr in ('append', 'extend', 'insert', 'remove', 'pop', 'sort', 'reverse', 'clear'):
+                        env[nm] = ('?', unparse(c))
+                elif nd.kind == 'test':
+                    labs = [lab for b_, lab in gb.succ[nid] if b_ == path[i_ + 1]]
+                    if labs and labs[0] in (True, False):
+                        for _, v, e in atomic_facts(nd.ast, labs[0]):
+                            if isinstance(e, ast.Compare) and len(e.ops) == 1 and isinstance(e.ops[0], ast.In) and \
+                                    getattr(e.left, 'value', None) == 't':
+                                conds.append((symv(e.comparators[0], env), v))
+            npaths += 1
+            val = env.get(seqname, ('?', seqname))
+            has_t = [v for x, v in conds if x == ('L',)]
+            if not has_t:
+                ok, why_t = False, "a path reaches the header without testing whether 't' is a variable"
+            elif has_t[-1] and val != ('t+', ('L-t',)):
+                ok, why_t = False, "with a 't' variable the column sequence is %s, not ['t'] + (the others)" % (val,)
+            elif not has_t[-1] and val != ('L',):
+                ok, why_t = False, "without a 't' variable the column sequence is %s, not the variable list" % (val,)
+        if not npaths:
+            ok, why_t = False, 'no path to the header'
     check.ob('C20.R3', '%s::time-axis-first-once' % b.key, ok, b.where,
-             "'t' is moved to the front (removed once, prepended once)" if ok else "'t' is not moved to the front exactly once",
+             "'t' is moved to the front (removed once, prepended once)" if ok else "'t' is not moved to the front exactly once (%s)" % why_t,
              'a block with a t variable')
     check.floor('C20.R1', 2)
     check.floor('C20.R2', 10)
